@@ -121,6 +121,7 @@ DEFAULT = {"int": "0", "bool": "false", "arr": "[]", "barr": "[]", "arr2": "[]",
 ELEM = {"arr": "int", "barr": "bool", "arr2": "arr"}        # arr2: a 2-D integer array, passed as the list of its rows
 ELEM["arr2w"] = "arr"
 LEAN_T["str"] = "String"        # a Python str parameter: only compared (`==` / `!=`) with string literals
+DEFAULT["str"] = '""'           # (a local bound to a string literal: its slot before the binding)
 
 
 class Unsupported(Exception):
@@ -1153,7 +1154,8 @@ class Kernel:
         n = len(self.ptypes)
         conv = {"int": "asInt?", "bool": "asBool?", "arr": "asArr?", "barr": "asBArr?", "opt_arr": "asOptArr?",
                 "arr2": "asArr2?", "opt_int": "asOptInt?", "arr2w": "asArr2?", "str": "asStr?"}
-        mk = {"int": "Val.int", "bool": "Val.bool", "arr": "Val.arr", "barr": "Val.barr", "arr2": "Val.arr2", "arr2w": "Val.arr2"}
+        mk = {"int": "Val.int", "bool": "Val.bool", "arr": "Val.arr", "barr": "Val.barr", "arr2": "Val.arr2", "arr2w": "Val.arr2",
+              "str": "Val.str"}
         pats = ", ".join(f"a{k}" for k in range(n))
         scrut = ", ".join(f"a{k}.{conv[t]}" for k, t in enumerate(self.ptypes))
         somes = ", ".join(f"some x{k}" for k in range(n))
